@@ -17,6 +17,9 @@ CONSTANTS
   MaxTcs = 4
   MaxTrks = 12
   TrackMethods <- TrMethods
+  Images <- TrImages
+  ImgLists <- TrImgLists
+  LocWidths <- TrWidths
   MaxLen = 6
   Depth = 1000
   Ops <- AllOps
